@@ -208,6 +208,15 @@ def run_job(job):
                 if not res["samples"]:
                     res["samples"].append(desc)
                 b_ran = os.path.exists(b_status)
+                b_sum = {}
+                try:
+                    for line in open(b_prefix + ".summary"):
+                        k, _, v = line.strip().partition("=")
+                        b_sum[k] = v
+                except FileNotFoundError:
+                    pass
+                res.setdefault("trace", []).append((n, r.status, r.steps, r.trace_hash, b_ran,
+                                                    b_sum.get("steps"), b_sum.get("trace_hash")))
                 c[f"mode_{sc['mode']}"] = c.get(f"mode_{sc['mode']}", 0) + 1
                 if not b_ran:
                     c["b_never_started"] = c.get("b_never_started", 0) + 1
